@@ -147,9 +147,9 @@ def sequential(p, calls):
     return {"results": res, "exc": "", "pos": 0, "fp": ""}
 
 
-def submit_batch(P, bp, calls, oneway):
-    """queues calls on BatchProxy bp and submits; returns the observation record"""
-    for c in calls:
+def submit_batch(P, bp, calls, oneway, queued=False):
+    """queues calls on BatchProxy bp (unless that has been done already) and submits; returns the observation record"""
+    for c in ([] if queued else calls):
         invoke_on(bp, c)
     out = {"results": [], "exc": "", "where": "", "pos": 0, "ret_none": False, "fp": ""}
     try:
@@ -191,6 +191,7 @@ def run_cases(cases, servertype):
         usa = d.register(P.behavior(instance_mode="session")(make_target()), "sa")
         usb = d.register(P.behavior(instance_mode="session")(make_target()), "sb")
         drv = memnet.ServerDriver(d)
+        undrained = [0]
         for case_no, case in enumerate(cases):
             sc.set_budget(20000)
             ser = case["ser"]
@@ -211,20 +212,35 @@ def run_cases(cases, servertype):
                 tr["seq"]["journal"] = pb.dump()
                 # the batch, on a BatchProxy that may already have carried an earlier batch
                 bp = P.BatchProxy(pa)
-                if case["pre"]:
+                late = None
+                if case["pre"] and case["drain"] == "late":
+                    # the results of the earlier batch are only looked at after the next batch's calls have been collected
+                    for c in case["pre"]:
+                        invoke_on(bp, c)
+                    late = bp()
+                    for c in case["calls"]:
+                        invoke_on(bp, c)
+                    try:
+                        list(late)
+                    except (S.Hang, S.SchedAbort):
+                        raise
+                    except Exception:
+                        pass
+                elif case["pre"]:
                     first = submit_batch(P, bp, case["pre"], False) if case["drain"] else None
                     if first is None:
                         for c in case["pre"]:
                             invoke_on(bp, c)
                         try:
-                            # results deliberately not looked at; every other time the earlier batch is a oneway batch
-                            bp(oneway=bool(case_no % 2))
+                            # results deliberately not looked at; every other time (of these) the earlier batch is a oneway batch
+                            undrained[0] += 1
+                            bp(oneway=bool(undrained[0] % 2))
                             sc.quiesce()
                         except (S.Hang, S.SchedAbort):
                             raise
                         except Exception:
                             pass
-                tr["bat"] = submit_batch(P, bp, case["calls"], case["oneway"])
+                tr["bat"] = submit_batch(P, bp, case["calls"], case["oneway"], queued=late is not None)
                 sc.quiesce()
                 pr._pyroRelease()
                 if session:
@@ -288,7 +304,7 @@ def run(ctx):
     for i in range(ctx.pick(300, 3000)):
         pre, calls = rng.choice(presafe), rng.choice(short)
         ser = sers[i % 4]
-        cases.append({"calls": calls, "pre": pre, "oneway": rng.random() < 0.3, "ser": ser, "drain": i % 2 == 0, "session": i % 5 == 2})
+        cases.append({"calls": calls, "pre": pre, "oneway": rng.random() < 0.3, "ser": ser, "drain": (True, False, "late")[i % 3], "session": i % 5 == 2})
     # long batches: a failing member early, late, or nowhere in more than a thousand calls
     # (quick: the early failure only - the model stops there too, the other shapes take TLC minutes)
     for li, (n, failat) in enumerate(((1100, 7), (2300, 3), (1100, 1050), (1100, 0), (2300, 1200))[:ctx.pick(2, 5)]):
